@@ -844,7 +844,13 @@ class Interp(Engine):
             if isinstance(base, (list, tuple, str, bytes)):
                 if isinstance(base, tuple) and any(is_sym(x) for x in base):
                     i = self.index_check(i, len(base), node)
-                    return SEnum(_ie(i), list(base)).collapse() if all(isinstance(x, (int, SInt)) for x in base) else self._sym_tuple_index(base, i)
+                    try:
+                        r = base[-1]
+                        for j in range(len(base) - 2, -1, -1):
+                            r = merge(_ie(i) == j, base[j], r)
+                        return r
+                    except Unsupported:
+                        return self._sym_tuple_index(base, i)
                 i = self.index_check(i, len(base), node)
                 tbl = list(base)
                 return SEnum(_ie(i), tbl).collapse()
